@@ -105,7 +105,9 @@ Slots(ctor) ==
     [] ctor = "set_zone_name" ->
          <<<<"zone_idx", ZoneFew>>,
            <<"name", <<Vs("nKitchen", "Kitchen", T), Vs("n20", "Master Bedroom Suite", T), Vs("n1", "A", T), Vs("nempty", "", T),
-                       Vs("n21", "Master Bedroom Suite2", F), Vs("nspace", "Den ", F), Vs("ntilde", "a~b", F)>>>>>>
+                       Vs("n21", "Master Bedroom Suite2", F), Vs("nspace", "Den ", F),
+                       \* every printable ASCII character is in the domain: the ends of the range are their own class
+                       Gp(Vs("ntilde", "a~b", T), "edge"), Gp(Vs("nbang", "!z}{", T), "edge")>>>>>>
     [] ctor = "set_zone_config" ->
          <<<<"zone_idx", ZoneFew>>,
            <<"min_temp", <<Va, Vr("t500", 500, T), Vr("t2100", 2100, T), Lsb(Vr("t502", 502, T)), Vi("ti5", 5, T), Vr("t499", 499, F), Vr("t2101", 2101, F)>>>>,
